@@ -272,10 +272,12 @@ def _evaluate(prog, **opt):
         return 'crash', '%s: %s' % (type(e).__name__, e)
 
 
-def check_case(case, seed, strict_all=False):
+def check_case(case, seed, full=False):
     """Render one shape, run the front end on it, compare with the spec's verdicts.
-    Two programs: `g` = shape + `return 0;` (always acceptable: its typechecked tree shows what was dropped) and
-    `f` = the shape alone (accepted or rejected with 'Missing return')."""
+    `f` = the shape alone: accepted, or rejected with 'Missing return' (V1).  What was dropped (V2) is read off the
+    typechecked tree: f's own when it is accepted, otherwise that of `g` = shape + `return 0;` (always acceptable).
+    Parsing is 95% of the cost, so g is only built when f is rejected and (the unreachable_error run flagged a
+    statement, or the shape is in the 1/8 sample, or full=True)."""
     text, flv, can, rule, reach = case
     can, rule = can == 'TRUE', rule == 'TRUE'
     reach = {int(x) for x in reach.replace(',', ' ').split()}
@@ -283,16 +285,13 @@ def check_case(case, seed, strict_all=False):
     nodes = parse_shape(text)
     helper = HELPER if 'h' in text else ''
     fsrc, frend = render_function(text, flv, seed, 'f')
-    gsrc, grend = render_function(text, flv, seed, 'g', trailing_return=True)
     res = {'text': text, 'flv': flv, 'can': can, 'rule': rule, 'bad': [], 'src': helper + fsrc, 'crash': None,
-           'dropped': [], 'strict': None, 'incons': False}
+           'dropped': [], 'strict': None, 'incons': False, 'tree': None}
     try:
-        gprog = H['parse'](H['SourceCode'].from_string(helper + gsrc))
         fprog = H['parse'](H['SourceCode'].from_string(helper + fsrc))
     except H['CompilerError'] as e:
         raise common.Machinery('shape %r does not parse: %s\n%s' % (text, e, helper + fsrc))
     pf = next(d for d in fprog.func_decls if _base(d) == 'f')
-    pg = next(d for d in gprog.func_decls if _base(d) == 'g')
 
     # ---- V1: accepted => cannot complete
     st, info = _evaluate(fprog)
@@ -303,56 +302,72 @@ def check_case(case, seed, strict_all=False):
         res['crash'] = info
     if res['accept'] and can:
         res['bad'].append({'kind': 'accepts-completable'})
+    dropped = None
+    if st == 'ok':
+        cf = info.funcs[pf.name][pf.param_types]     # the hand-off CodeGen itself reads
+        if cf is pf:
+            raise common.Machinery('typechecked f not found for %r' % text)
+        w = Walk(frend)
+        w.lst(nodes, pf.body, cf.body)
+        dropped = list(w.dropped)
+        res['tree'] = 'f'
 
-    # ---- V2: dropped => unreachable (default mode: compare the typechecked tree with the parsed one)
-    st, info = _evaluate(gprog)
-    trailing = None
-    if st == 'rejected':
-        # cannot happen with K1/K6 (the last statement is a return: it is either processed or dropped because the
-        # list cannot complete) - a compiler that does it is inconsistent; no tree to look at, strict mode below
-        if info != pg.body.span:
-            raise common.Machinery('shape %r: g (shape + return) rejected at %s\n%s' % (text, info, helper + gsrc))
-        res['incons'] = True
-        res['g_rejected'] = True
-    elif st == 'crash':
-        res['crash'] = res['crash'] or info
+    # ---- V2 with unreachable_error=True: the first statement hidc would drop is reported instead
+    flagged = None
+    st2, info2 = _evaluate(fprog, unreachable_error=True)
+    if st2 == 'rejected' and info2 != pf.body.span:
+        w2 = Walk(frend)
+        w2.spans_only(nodes, pf.body)
+        hit = [nid for nid, sp in w2.spans.items() if sp == info2]
+        if not hit:
+            raise common.Machinery('shape %r: strict mode error at %s is not a statement of the shape' % (text, info2))
+        flagged = min(hit)
+        res['strict'] = ('flagged', flagged)
+        if flagged in reach:
+            res['bad'].append({'kind': 'dropped-reachable', 'stmt': flagged, 'mode': 'unreachable_error'})
     else:
-        cg = info.funcs[pg.name][pg.param_types]     # the hand-off CodeGen itself reads
-        if cg is pg:
-            raise common.Machinery('typechecked g not found for %r' % text)
-        w = Walk(grend)
-        w.lst(nodes, pg.body, cg.body, extra=1)
-        res['dropped'] = list(w.dropped)
-        # the appended `return 0;` is dropped exactly when hidc believes the shape cannot complete
-        trailing = len(cg.body.stmts) <= len(nodes)
-        for nid in w.dropped:
-            if nid in reach:
-                res['bad'].append({'kind': 'dropped-reachable', 'stmt': nid, 'mode': 'default'})
-        if trailing and can:
-            res['bad'].append({'kind': 'dropped-reachable', 'stmt': 0, 'mode': 'default',
-                               'note': 'the `return 0;` appended after the shape was dropped although the shape can complete'})
-        if res['accept'] is not None and trailing != res['accept']:
+        res['strict'] = (st2, None)
+        if st2 == 'crash':
+            res['crash'] = res['crash'] or info2
+        elif not res['crash'] and (st2 == 'ok') != res['accept']:
             res['incons'] = True
 
-    # ---- V2 again with unreachable_error=True: the first statement hidc would drop is reported instead
-    if res['dropped'] or res['crash'] or res.get('g_rejected') or strict_all or zlib.crc32(text.encode()) % 8 == 0:
-        st, info = _evaluate(fprog, unreachable_error=True)
-        if st == 'rejected' and info != pf.body.span:
-            w2 = Walk(frend)
-            w2.spans_only(nodes, pf.body)
-            hit = [nid for nid, sp in w2.spans.items() if sp == info]
-            if not hit:
-                raise common.Machinery('shape %r: strict mode error at %s is not a statement of the shape' % (text, info))
-            nid = min(hit)
-            res['strict'] = ('flagged', nid)
-            if nid in reach:
-                res['bad'].append({'kind': 'dropped-reachable', 'stmt': nid, 'mode': 'unreachable_error'})
-            if not res['crash'] and not res.get('g_rejected') and (not res['dropped'] or nid != res['dropped'][0]):
-                res['incons'] = True
+    # ---- V2, default mode: compare the typechecked tree with the parsed one
+    if dropped is None and (flagged is not None or res['crash'] or full or zlib.crc32(text.encode()) % 8 == 0):
+        gsrc, grend = render_function(text, flv, seed, 'g', trailing_return=True)
+        gprog = H['parse'](H['SourceCode'].from_string(helper + gsrc))
+        pg = next(d for d in gprog.func_decls if _base(d) == 'g')
+        st, info = _evaluate(gprog)
+        if st == 'rejected':
+            # cannot happen with K1/K6 (the last statement is a return: it is either processed, or dropped because
+            # the list cannot complete): such a compiler is inconsistent; there is no tree to look at
+            if info != pg.body.span:
+                raise common.Machinery('shape %r: g (shape + return) rejected at %s\n%s' % (text, info, helper + gsrc))
+            res['incons'] = True
+        elif st == 'crash':
+            res['crash'] = res['crash'] or info
         else:
-            res['strict'] = (st, None)
-            if not res['crash'] and (res['dropped'] or (st == 'ok') != res['accept']):
+            cg = info.funcs[pg.name][pg.param_types]
+            if cg is pg:
+                raise common.Machinery('typechecked g not found for %r' % text)
+            w = Walk(grend)
+            w.lst(nodes, pg.body, cg.body, extra=1)
+            dropped = list(w.dropped)
+            res['tree'] = 'g'
+            # the appended `return 0;` is dropped exactly when hidc believes the shape cannot complete
+            trailing = len(cg.body.stmts) <= len(nodes)
+            if trailing and can:
+                res['bad'].append({'kind': 'dropped-reachable', 'stmt': 0, 'mode': 'default',
+                                   'note': 'the `return 0;` appended after the shape was dropped although the shape can complete'})
+            if res['accept'] is not None and trailing != res['accept']:
                 res['incons'] = True
+    if dropped is not None:
+        res['dropped'] = dropped
+        for nid in dropped:
+            if nid in reach:
+                res['bad'].append({'kind': 'dropped-reachable', 'stmt': nid, 'mode': 'default'})
+        if not res['crash'] and (dropped[0] if dropped else None) != flagged:
+            res['incons'] = True                     # the two modes disagree about the first dropped statement
     return res
 
 
@@ -402,7 +417,7 @@ def _work(args):
         if corrupt is not None and case[0] == corrupt:
             case = (case[0], case[1], 'TRUE' if case[2] == 'FALSE' else 'FALSE', case[3], case[4])
         r = check_case(case, seed)
-        slim = {k: r[k] for k in ('text', 'flv', 'can', 'rule', 'accept', 'bad', 'strict', 'incons', 'crash')}
+        slim = {k: r[k] for k in ('text', 'flv', 'can', 'rule', 'accept', 'bad', 'strict', 'incons', 'crash', 'tree')}
         slim['ndrop'] = len(r['dropped'])
         if r['bad']:
             slim['src'] = r['src']
@@ -419,7 +434,7 @@ def run(tier, seed, cache=None, corrupt=None, strata=None):
     strata = strata or TIERS[tier]
     out = {'violations': [], 'states': 0, 'transitions': 0, 'cases': 0, 'samples': [], 'strata': [], 'tlc_wall_s': 0.0}
     cnt = dict(accepted=0, rejected=0, crashed=0, over_rejections=0, rule_disagreements=0, shapes_with_dropped_code=0,
-               dropped_statements=0, strict_mode_runs=0, strict_mode_flagged=0, inconsistent=0,
+               dropped_statements=0, trees_compared=0, strict_mode_runs=0, strict_mode_flagged=0, inconsistent=0,
                flavour_plain=0, flavour_you=0, flavour_defeat=0, can_complete=0)
     kinds = {}
     cached = None
@@ -463,6 +478,7 @@ def run(tier, seed, cache=None, corrupt=None, strata=None):
                     cnt['shapes_with_dropped_code'] += r['ndrop'] > 0
                     cnt['dropped_statements'] += r['ndrop']
                     cnt['strict_mode_runs'] += r['strict'] is not None
+                    cnt['trees_compared'] += r['tree'] is not None
                     cnt['strict_mode_flagged'] += bool(r['strict'] and r['strict'][0] == 'flagged')
                     cnt['inconsistent'] += bool(r['incons'])
                     cnt[{'p': 'flavour_plain', 'y': 'flavour_you', 'd': 'flavour_defeat'}[r['flv']]] += 1
